@@ -505,19 +505,52 @@ def describe_canvas(canvas, ct: CanvTable):
 
 def run_script(sc: dict):
     """→ list of per-step records (dicts). Deterministic in the script."""
+    import term_image.image.kitty as K
+
+    fresh = sc.get("fresh_support", False)
     env.reset_env()
-    env.set_env(name=sc["term"], cell_size=tuple(sc.get("cell", (4, 8))), term_size=(sc["W"], sc["H"]))
+    env.set_env(name=sc["term"], version="0.30.0" if fresh else "", cell_size=tuple(sc.get("cell", (4, 8))),
+                term_size=(sc["W"], sc["H"]))
     KittyImage._KITTY_VERSION = (0, 30, 0)
     KittyImage._supported = True
     ITerm2Image._supported = True
     reset_class_state()
     W, H = sc["W"], sc["H"]
-    ws = [make_image_widget(s) for s in sc["widgets"]]
-    KittyImage._supported = sc.get("kitty_supported", True)
-    ITerm2Image._supported = sc.get("iterm2_supported", True)
-    widget_ids = {id(w): i for i, w in enumerate(ws)}
+    ws: list = []
+    widget_ids: dict = {}
+    orig_query = K.query_terminal
+    queries = []
+
+    def fake_query(request, more=lambda s: True, *a, **k):
+        """the terminal answers the kitty support query positively (and DA1)"""
+        queries.append(request)
+        return b"\x1b_Gi=31;OK\x1b\\\x1b[?62;c"
+
+    def create_widgets():
+        if ws or not sc["widgets"]:
+            return
+        if not fresh:
+            KittyImage._supported = True
+        ws.extend(make_image_widget(s) for s in sc["widgets"])
+        widget_ids.update({id(w): i for i, w in enumerate(ws)})
+        if not fresh:
+            KittyImage._supported = sc.get("kitty_supported", True)
+        ITerm2Image._supported = sc.get("iterm2_supported", True)
+
+    if sc.get("forced"):
+        KittyImage.forced_support = True
+    if fresh:
+        # a process in which kitty support has not been probed yet, on a terminal that answers the query;
+        # no image widget exists before the first step that needs one
+        KittyImage._supported = None
+        K.query_terminal = fake_query
+    else:
+        create_widgets()
     scr = Scr((W, H))
+    if sc["steps"] and sc["steps"][0]["op"] == "start":
+        scr._started = False
     term = PTerm(W, H, sc["term"])
+    term.pl = [tuple(p) for p in sc.get("leftover", [])]  # images an earlier program left on the terminal
     ct = CanvTable(widget_ids)
     top_ids: dict = {}
     recs = []
@@ -528,6 +561,8 @@ def run_script(sc: dict):
             rec = {"op": op, "exc": None}
             scr.take()
             try:
+                if op in ("draw", "clear_images"):
+                    create_widgets()
                 if op == "draw":
                     if st.get("same") and last_canvas is not None:
                         canvas = last_canvas
@@ -568,12 +603,14 @@ def run_script(sc: dict):
                 rec["toks"] = None
                 rec["placements"] = None
             rec["cviews"] = sorted((ct.known(c), *rest) for c, *rest in scr._ti_image_cviews)
-            rec["wdis"] = [w._ti_disguise_state for w in ws]
+            rec["wdis"] = [w._ti_disguise_state for w in ws] or [0] * len(sc["widgets"])
             rec["cdis"] = UrwidImageCanvas._ti_disguise_state
             recs.append(rec)
     finally:
+        K.query_terminal = orig_query
         KittyImage._supported = True
         ITerm2Image._supported = True
+        KittyImage.forced_support = False
         if scr._started:
             try:
                 scr.stop()
